@@ -135,8 +135,9 @@ func TruncateInBytes(s string, n int) (string, bool) {
 	r := []rune(s)
 	truncationTarget := n - 3
 
-	// Next, let's truncate the runes to the lower possible number.
-	truncatedRunes := r[:truncationTarget]
+	// Next, let's truncate the runes to the lower possible number. A string of
+	// multi-byte runes can exceed n bytes with fewer than truncationTarget runes.
+	truncatedRunes := r[:min(truncationTarget, len(r))]
 	for len(string(truncatedRunes)) > truncationTarget {
 		truncatedRunes = r[:len(truncatedRunes)-1]
 	}
